@@ -885,3 +885,9 @@ V("twin: parallel with the arguments of join exchanged", "C10", POINT, "        
 V("twin: mirror with the roles of I and J exchanged throughout", "C10", POINT,
   "        l1 = join(I, pt, _normalize_result=False)\n        l2 = join(J, pt, _normalize_result=False)\n        p1 = l.meet(l1)\n        p2 = l.meet(l2)\n        m1 = join(p1, J, _normalize_result=False)\n        m2 = join(p2, I, _normalize_result=False)",
   "        l1 = join(J, pt, _normalize_result=False)\n        l2 = join(I, pt, _normalize_result=False)\n        p1 = l.meet(l1)\n        p2 = l.meet(l2)\n        m1 = join(p1, I, _normalize_result=False)\n        m2 = join(p2, J, _normalize_result=False)", "silent")
+
+
+# ------------------------------------------------------------------------------------------------ degenerate arguments of join / meet (E19.join, degenerate part)
+V("skew lines of 3-space are joined without an error", "C02", POINT, "            elif intersect_lines or n == 4:", "            elif intersect_lines and n == 4:", "E19.join", "_join_meet_duality")
+V("single dependent arguments are not reported", "C02", POINT, "        if result.free_indices == 0 and is_zero:", "        if result.free_indices > 0 and is_zero:", "E19.join", "_join_meet_duality")
+V("twin: the dependence test written with the free indices first", "C02", POINT, "        if result.free_indices == 0 and is_zero:", "        if is_zero and result.free_indices == 0:", "silent")
